@@ -140,10 +140,12 @@ CLAIMS = {
          "style): grevm's CacheAccountInfo::{selfdestruct, touch_empty_eip161, newly_created, change, increment_balance} (MIR) against revm-database's "
          "CacheAccount methods (MIR of the dependency, same run) from ANY (status, account) pair and any new info / storage: resulting status "
          "and account, the TransitionAccount (info, previous info, both statuses, storage_was_destroyed, storage slots) and the slot values "
-         "handed to the storage cache are field-by-field equal.",
+         "handed to the storage cache are field-by-field equal. Account reads: the real ParallelStateView::db_basic against {first load of the account; real "
+         "apply_account_state of any journal account}, sequentially and with either role atomic at every conflicting visible operation of the other, account cached or not, "
+         "any backing account (absent / empty / non-empty): afterwards db_basic serves exactly the committed account (absent after selfdestruct / empty-touch; untouched: as before).",
     note=TRUST + "In the reader/commit kernels the status transitions are ghosts setting the documented status class (their equality with "
          "revm is the differential harnesses' job). NOT decided: drain_balance, apply_account_state against revm CacheState::apply_account_state "
-         "as a whole, the extracted BundleState / reverts (bundle.rs; revm's merge code), db_basic / db_code_by_hash, real rayon scheduling. "
+         "as a whole, the extracted BundleState / reverts (bundle.rs; revm's merge code), db_code_by_hash / db_block_hash, real rayon scheduling. "
          "2 addresses x 2 slots, 8-bit values.",
     design="5/C10"),
  "C12": dict(
@@ -162,9 +164,15 @@ CLAIMS = {
          "min(balance before its first debit, future cost), queried with the handler's global transaction index. Kani (compiled crate, in-crate "
          "harnesses behind cfg(kani)): is_root_value_transfer <=> BalanceTransfer from the caller of exactly tx.value to the CALL target (any "
          "recipient for CREATE); balance_before_entry inverts every forward-applied pair of balance entries; the per-account suffix lookup "
-         "returns the entry of the first own transaction strictly after txid.",
-    note=TRUST + "Kani 0.68 (CBMC back end) with exact stand-ins for two x86 carry intrinsics used by ruint. NOT decided: the journal scan "
-         "delegated_debits_since as a whole (revm Journal internals; a seeded change there -- last instead of first debit, seed C13-2 -- is NOT detected), build_schedule's saturating sums over TxEnv::max_balance_spending, the "
+         "returns the entry of the first own transaction strictly after txid. mir2c -> CBMC again: the journal scan itself -- the real "
+         "ReserveJournalExt::delegated_debits_since with is_root_value_transfer and balance_before_entry inlined -- over ANY journal of <= 3 balance-relevant "
+         "entries (transfer / self-destruct / balance change / other), any journal state of 3 accounts (present or not, code none / ordinary / EIP-7702 designator), "
+         "any checkpoint and transaction (caller, value, CALL target or CREATE), hash-map iteration order chosen by the solver: exactly one candidate per delegated "
+         "account with a surviving protected debit after the checkpoint (the single root value transfer excluded), final balance from the journal state, and "
+         "balance_before = the balance immediately before the account's FIRST such debit (oracle written over the harness state).",
+    note=TRUST + "Kani 0.68 (CBMC back end) with exact stand-ins for two x86 carry intrinsics used by ruint. The journal-scan kernel uses 8-bit abstract U256 values "
+         "(saturating +/- at that width), Bytecode::is_eip7702 is an uninterpreted predicate of the opaque bytecode id, journals longer than 3 entries are outside the bound. "
+         "NOT decided: build_schedule's saturating sums over TxEnv::max_balance_spending, the "
          "revert / refund / reimbursement call sequence of enforce_reserve, and the end-to-end funding guarantee over real EVM runs.",
     design="5/C13"),
  "C11": dict(
